@@ -278,7 +278,7 @@ func main() {
 	}
 	to := *timeout
 	if to == 0 {
-		to = 10
+		to = 30 // a proved VC needs well under 2 s; the margin is for machines under load (a timeout would be a false alarm)
 		if *tier == "thorough" {
 			to = 60
 		}
